@@ -162,6 +162,38 @@ class Recorder:
         s.sample_shell = types.MethodType(sample_shell, s)
         s.add_samples = types.MethodType(add_samples, s)
 
+    def rebind(self, s2, lk2):
+        """a new sampler object has been resumed from the checkpoint file: keep recording.  Model bound ids are kept by
+        position (the model has no object identity); the abstraction of the resumed sampler is recorded as the state after
+        the pseudo-operation `R`, which the model treats as the identity — so `load . persist = id` is checked on the
+        abstraction at every resume, and the history after it is replayed like the one before"""
+        self.sync_phase()
+        old = self.s
+        if len(s2.bounds) != len(old.bounds):
+            self.notes.append('resume changed the number of bounds: %d -> %d' % (len(old.bounds), len(s2.bounds)))
+        ids = [self.bid(b) for b in old.bounds]
+        rows = np.array(self.row_list) if self.row_list else None
+        for i, b in enumerate(s2.bounds):
+            if i < len(ids):
+                if type(b).__name__ != type(old.bounds[i]).__name__:
+                    self.notes.append('resume: bound %d was a %s, the resumed sampler holds a %s' % (
+                        i, type(old.bounds[i]).__name__, type(b).__name__))
+                if rows is not None:
+                    try:
+                        n_diff = int(np.sum(np.asarray(b.contains(rows), dtype=bool) != np.asarray(old.bounds[i].contains(rows), dtype=bool)))
+                    except Exception as e:
+                        n_diff = -1
+                        self.notes.append('resume: contains() of the resumed bound %d raised %s' % (i, type(e).__name__))
+                    if n_diff > 0:
+                        self.notes.append('resume: contains() of bound %d differs on %d of %d recorded rows' % (i, n_diff, len(rows)))
+                self.bounds[ids[i]] = b
+                self.drawn[id(b)] = self.drawn.get(id(old.bounds[i]), 0)
+        self.s, self.lk = s2, lk2
+        self._install()
+        self.ops.append('R')
+        self.outs.append('ok')
+        self.states.append(self.abstract())
+
     def sync_phase(self):
         """exploration ended since the last recorded operation → record it"""
         if self.s.explored and not self.explored_seen:
